@@ -1104,9 +1104,11 @@ class StateEngine(object):
                 #print()
 
                 # If has_terminated acknowledge the event and don't add the
-                # id to the event_ids list
+                # id to the event_ids list. The event of a (nested) Parallel
+                # or Map state is never held in that list, but as the state
+                # will not now run to acknowledge it itself do that here too.
+                self.event_dispatcher.acknowledge(id)
                 if state_type != "Parallel" and state_type != "Map":
-                    self.event_dispatcher.acknowledge(id)
                     event_ids[index] = None
 
                 self.check_pending_results(execution_arn)
